@@ -143,6 +143,11 @@ func (Engine) Shrink(plan interface{}, try func(interface{}) bool) interface{} {
 				return ok
 			},
 			func(p *Plan) bool {
+				ok := p.CacheKind == CacheLRUDirect
+				p.CacheKind = CacheLRU
+				return ok
+			},
+			func(p *Plan) bool {
 				ok := p.CacheKind == CacheMap
 				p.CacheKind, p.CacheCap = CacheLRU, 8
 				return ok
